@@ -293,7 +293,10 @@ def render_attr(d, line0=0):
 def render(d, line0=0):
     vis = d['vis'] + ' ' if d['vis'] else ''
     g = d['generics'] or ''
-    return f"{render_attr(d, line0)}\n{vis}struct {d['name']}{g}({d['inner']});\n"
+    pre = ''.join(x + '\n' for x in d.get('pre_attrs') or [])
+    post = ''.join(x + '\n' for x in d.get('post_attrs') or [])
+    wh = ' ' + d['where'] if d.get('where') else ''
+    return f"{pre}{render_attr(d, line0 + len(d.get('pre_attrs') or []))}\n{post}{vis}struct {d['name']}{g}({d['inner']}){wh};\n"
 
 
 PRELUDE_STD = '''#![allow(dead_code, unused_imports, unused_variables, unused_mut, clippy::all)]
@@ -319,6 +322,13 @@ impl core::fmt::Display for Point { fn fmt(&self, f: &mut core::fmt::Formatter<'
 impl core::str::FromStr for Point { type Err = MyErr; fn from_str(s: &str) -> Result<Self, MyErr> { if s.is_empty() { Err(MyErr::Bad) } else { Ok(Point { x: s.len() as i32, y: 0 }) } } }
 pub fn san_point(p: Point) -> Point { Point { x: p.x.abs(), y: p.y } }
 pub fn pred_point(p: &Point) -> bool { p.x != p.y }
+pub mod helpers {
+    pub fn pred_h(s: &str) -> bool { s.len() != 5 }
+    pub fn san_h(s: String) -> String { s.replace('q', "k") }
+    pub fn pred_hi(x: &i32) -> bool { *x != 6 }
+    pub fn san_hi(x: i32) -> i32 { x / 3 }
+    pub mod deep { pub fn pred_hf(x: &f64) -> bool { *x != 6.5 } }
+}
 pub fn check_point(p: &Point) -> Result<(), MyErr> { if p.x >= 0 { Ok(()) } else { Err(MyErr::Worse(p.x)) } }
 '''
 
@@ -1144,6 +1154,34 @@ def build(tier='quick', seed=0):
         decl('float', 'f32', validators=[V('less_or_equal', 'f32::INFINITY', float('inf'), 'expr')], derives=['Debug', 'TryFrom'], tags=['trivial']),
     ]
     full += triv
+    # less common forms of function-valued items, regex literals, attribute neighbours and generics
+    def X(d, **kw):
+        d.update(kw)
+        return d
+    full.append(decl('string', 'String', sanitizers=[S('with', "|mut s: String| { s.push('x'); s }", 'closure')], validators=[V('not_empty')],
+                     derives=['Debug', 'TryFrom', 'FromStr'], tags=['forms']))
+    full.append(decl('string', 'String', sanitizers=[S('trim'), S('with', 'helpers::san_h', 'path', callee='helpers::san_h'), S('lowercase')],
+                     validators=[V('predicate', 'crate::helpers::pred_h', form='path', callee='helpers::pred_h'), V('len_char_max', '9', 9, 'lit')],
+                     derives=['Debug', 'TryFrom', 'FromStr', 'Deserialize'], tags=['forms']))
+    full.append(decl('string', 'String', validators=[V('predicate', '|s: &str| s.is_ascii()', form='closure'), V('not_empty')], derives=['Debug', 'TryFrom'], tags=['forms']))
+    full.append(decl('string', 'String', validators=[V('len_char_max', '9', 9, 'lit'), V('predicate', 'self::pred_str', form='path', callee='pred_str')],
+                     derives=['Debug', 'TryFrom'], tags=['forms']))
+    full.append(decl('string', 'String', validators=[V('regex', 'r"^[a-z]+$"', form='lit', pattern='^[a-z]+$'), V('not_empty')], derives=['Debug', 'TryFrom'], tags=['forms']))
+    full.append(decl('string', 'String', validators=[V('regex', 'r#"^[a-z"]+$"#', form='lit', pattern='^[a-z"]+$')], derives=['Debug', 'TryFrom'], tags=['forms']))
+    full.append(decl('string', 'String', validators=[V('regex', '"^\\\\d+\\\\.$"', form='lit', pattern='^\\d+\\.$')], derives=['Debug', 'TryFrom'], tags=['forms']))
+    full.append(decl('string', 'String', validators=[V('regex', 'crate::RE_STATIC', form='path', callee='RE_STATIC')], derives=['Debug', 'TryFrom'], tags=['forms']))
+    full.append(decl('int', 'i32', sanitizers=[S('with', 'helpers::san_hi', 'path', callee='helpers::san_hi')],
+                     validators=[V('predicate', 'helpers::pred_hi', form='path', callee='helpers::pred_hi'), V('less', '10', 10, 'lit')],
+                     derives=['Debug', 'TryFrom', 'FromStr'], tags=['forms']))
+    full.append(decl('int', 'i32', sanitizers=[S('with', '|x: i32| -> i32 { x.wrapping_abs() }', 'closure')], validators=[V('less', '10', 10, 'lit')],
+                     derives=['Debug', 'TryFrom'], tags=['forms']))
+    full.append(decl('float', 'f64', validators=[V('predicate', 'helpers::deep::pred_hf', form='path', callee='helpers::deep::pred_hf'), V('finite')],
+                     derives=['Debug', 'TryFrom'], tags=['forms']))
+    full.append(X(decl('int', 'i32', validators=[V('greater', '1', 1, 'lit')], derives=['Debug', 'TryFrom', 'Display'], tags=['forms']),
+                  pre_attrs=['/// a documented newtype', '#[doc = "second line"]'], post_attrs=['/// docs between the attribute and the item']))
+    full.append(X(decl('string', 'String', sanitizers=[S('trim')], validators=[V('not_empty')], derives=['Debug', 'TryFrom', 'AsRef'], tags=['forms']),
+                  post_attrs=['#[doc(hidden)]']))
+
     # less common spellings of a bound: every one is an ordinary Rust expression of the inner type
     for t in ['i32', 'u64', 'i8']:
         U = t.upper()
